@@ -66,6 +66,8 @@ for _pid in ("C01", "C02", "C06", "C08", "C11", "C13", "C14", "C17"):
 PROPS["C01"]["streams"] = PROPS["C01"]["streams"] + [("late-sweep", 32)]
 for _pid in ("C03", "C04", "C07"):
     PROPS[_pid]["streams"] = PROPS[_pid]["streams"] + [("warm-order", 32)]
+for _pid in ("C15", "C17", "C08"):
+    PROPS[_pid]["streams"] = PROPS[_pid]["streams"] + [("moods", 32)]
 import metamorphic as MM
 for _pid in MM.CHECKS:
     PROPS[_pid]["extra"] = MM.extra(_pid)
